@@ -229,6 +229,7 @@ class Lift:
         self.derive = None     # None = KEEP_DERIVES, else the subset to keep
         self.no_body = False
         self.no_canary = False
+        self.expand = {}       # macro name -> (params, body) from its macro_rules! text (rule R4)
         self.line = 0
 
     @property
@@ -340,6 +341,31 @@ def transform(src, lo, hi, lift, report, inserts=None, replaced=None, ret_at=Non
                 mname = '::'.join(path)
                 if jo <= hi and toks[jo].kind == 'punct' and toks[jo].text in '([{':
                     c = match_close(toks, jo)
+                    if mname in lift.expand:
+                        params, body = lift.expand[mname]
+                        args = []
+                        a0 = jo + 1
+                        j = jo + 1
+                        while j <= c:
+                            tj = toks[j]
+                            if j == c or (tj.kind == 'punct' and tj.text == ','):
+                                if any(_code(toks, q) for q in range(a0, j)):
+                                    segs = transform(src, a0, j - 1, lift, report, inserts, replaced)
+                                    args.append(' '.join(''.join(x for x, _ in segs).split()))
+                                a0 = j + 1
+                            elif tj.kind == 'punct' and tj.text in '([{':
+                                j = match_close(toks, j)
+                            j += 1
+                        if len(args) != len(params):
+                            raise Lost('macro %s! called with %d arguments, definition has %d (%s:%d)'
+                                       % (mname, len(args), len(params), src.path, src.line_of(t.start)))
+                        text = body
+                        for pn, av in zip(params, args):
+                            text = re.sub(r'\$' + pn + r'\b', lambda m_: av, text)
+                        out.append((text + _newlines(src.text[t.start:toks[c].end]), t.start))
+                        bump('R4.' + mname)
+                        k = c + 1
+                        continue
                     if mname in DROP_MACROS:
                         e = c
                         js = _next_code(toks, c, hi + 1)
@@ -350,6 +376,7 @@ def transform(src, lo, hi, lift, report, inserts=None, replaced=None, ret_at=Non
                         k = e + 1
                         continue
                     if mname == 'measure':
+                        check_measure_macro()
                         # first top-level argument
                         depth = 0
                         comma = None
@@ -580,3 +607,80 @@ def segments_to_lines(segs, src):
                     cur_origin = src.line_of(off) + i
     lines.append((''.join(cur), cur_origin))
     return lines
+
+
+def load_macro(src, name):
+    """R4: read `macro_rules! name { (params) => { body }; }` (single arm, `$x:expr` fragments only)"""
+    it = locate(src, 'macro_rules ' + name)
+    toks = src.toks
+    if it['body_open'] is None:
+        raise Lost('macro %s has no brace body' % name)
+    k = _next_code(toks, it['body_open'], it['end'])
+    if toks[k].text not in '([{':
+        raise Lost('macro %s: unexpected shape' % name)
+    pc = match_close(toks, k)
+    ptxt = src.text[toks[k].end:toks[pc].start]
+    params = []
+    for part in ptxt.split(','):
+        part = part.strip()
+        if not part:
+            continue
+        m = re.match(r'^\$([A-Za-z_][A-Za-z0-9_]*)\s*:\s*expr$', part)
+        if not m:
+            raise Lost('macro %s: unsupported fragment `%s`' % (name, part))
+        params.append(m.group(1))
+    k2 = _next_code(toks, pc, it['end'])
+    if toks[k2].text != '=>':
+        raise Lost('macro %s: unexpected shape' % name)
+    k3 = _next_code(toks, k2, it['end'])
+    bc = match_close(toks, k3)
+    # single arm only
+    k4 = _next_code(toks, bc, it['end'])
+    if k4 < it['end'] and toks[k4].text == ';':
+        k4 = _next_code(toks, k4, it['end'])
+    if k4 < it['end']:
+        raise Lost('macro %s has more than one arm' % name)
+    body = ''.join(' ' if toks[q].kind in ('ws', 'comment') else toks[q].text for q in range(k3 + 1, bc))
+    body = ' '.join(body.split())
+    if body.endswith(';'):
+        body = body[:-1].rstrip()
+    return params, body
+
+
+_measure_checked = [False]
+
+
+def check_measure_macro():
+    """R3.measure is sound only while air-utils' measure! is `{ let span..; let _enter..; $expr }`"""
+    if _measure_checked[0]:
+        return
+    import os
+    rel = 'crates/air-lib/utils/src/lib.rs'
+    root = os.environ.get('VERIF_REPO', '/repo')
+    try:
+        src = Source(rel, open(os.path.join(root, rel)).read())
+    except OSError as e:
+        raise Lost('cannot read %s: %s' % (rel, e))
+    it = locate(src, 'macro_rules measure')
+    toks = src.toks
+    k = _next_code(toks, it['body_open'], it['end'])
+    narms = 0
+    while k < it['end']:
+        if toks[k].text not in '([{':
+            raise Lost('measure!: unexpected shape')
+        pc = match_close(toks, k)
+        k = _next_code(toks, pc, it['end'])
+        if toks[k].text != '=>':
+            raise Lost('measure!: unexpected shape')
+        k = _next_code(toks, k, it['end'])
+        bc = match_close(toks, k)
+        body = ' '.join(''.join(' ' if toks[q].kind in ('ws', 'comment') else toks[q].text for q in range(k, bc + 1)).split())
+        if not re.match(r'^\(\{ let span = tracing::span!\([^;]*\); let _enter = span\.enter\(\); \$expr \}\)$', body):
+            raise Lost('air-utils measure! no longer is a tracing span around $expr: `%s`' % body[:160])
+        narms += 1
+        k = _next_code(toks, bc, it['end'])
+        if k < it['end'] and toks[k].text == ';':
+            k = _next_code(toks, k, it['end'])
+    if narms == 0:
+        raise Lost('measure!: no arms found')
+    _measure_checked[0] = True
